@@ -218,20 +218,70 @@ def runCallback (U : Universe) (P : Problem) : TaskResult → M Unit
   | .req sid r lists => onRequirementCandidates U sid r lists
   | .cons sid vs l => onConstraintCandidates sid vs l
 
+/-- a pushed future becomes a task at the back of the ready queue -/
+def adoptOne (U : Universe) (a : AS) (t : Task) : AS :=
+  let children : List Child := match t with
+    | .req _ r => (U.reqVersionSets r).map (fun vs => { vs := vs })
+    | .cons _ vs => [{ vs := vs }]
+    | _ => []
+  { a with tasks := a.tasks ++ [{ id := a.nextId, task := t, children := children }], ready := a.ready ++ [a.nextId], nextId := a.nextId + 1 }
+
 /-- futures pushed by the callbacks (they sit in `S.queue`) become tasks at the back of the ready queue -/
 def adoptPushed (U : Universe) (a : AS) : M AS := do
   let s ← get
   set { s with queue := [] }
-  pure (s.queue.foldl (fun (a : AS) (t : Task) =>
-    let children : List Child := match t with
-      | .req _ r => (U.reqVersionSets r).map (fun vs => { vs := vs })
-      | .cons _ vs => [{ vs := vs }]
-      | _ => []
-    { a with tasks := a.tasks ++ [{ id := a.nextId, task := t, children := children }], ready := a.ready ++ [a.nextId], nextId := a.nextId + 1 }) a)
+  pure (s.queue.foldl (adoptOne U) a)
 
 def insertSorted (x : String) : List String → List String
   | [] => [x]
   | y :: ys => if x ≤ y then x :: y :: ys else y :: insertSorted x ys
+
+/-- the executor's turn at a quiescent point: record what is outstanding, complete the request the schedule names
+    (`<label>` = the oldest outstanding request with that label, `<label> <k>` = the k-th oldest) and wake its future -/
+def executorTurn (a : AS) : M AS := do
+  let labels := (a.gates.map (·.1) ++ a.fgates.map (·.1)).foldl (fun acc l => insertSorted l acc) []
+  modify fun s => { s with aevents := ("pending" ++ labels.foldl (fun acc l => acc ++ " " ++ l) "") :: s.aevents }
+  let s ← get
+  match s.sched with
+  | [] => throw (.panic "DEADLOCK or schedule exhausted")
+  | entry :: ls =>
+    let (l, k) : String × Nat := match entry.splitOn " " with
+      | [l, k] => (l, k.toNat?.getD 1)
+      | _ => (entry, 1)
+    match a.gates.lookup l with
+    | some tid =>
+      set { s with sched := ls, aevents := s!"complete {entry}" :: s.aevents }
+      pure (enqueue { a with gates := a.gates.filter (fun g => g.1 != l), opened := l :: a.opened } tid)
+    | none =>
+      match (a.fgates.filter (fun g => g.1 == l))[k - 1]? with
+      | some (_, tid, gid) =>
+        set { s with sched := ls, aevents := s!"complete {entry}" :: s.aevents }
+        pure (enqueue { a with fgates := a.fgates.filter (fun g => g.2.2 != gid), fopened := gid :: a.fopened } tid)
+      | none => throw (.panic s!"schedule names {entry}, which is not outstanding")
+
+/-- one iteration of `pending_futures.next()` + callback: `none` = the stream is exhausted (encode returns) -/
+def asyncStep (U : Universe) (P : Problem) (a : AS) : M (Option AS) := do
+  let a ← adoptPushed U a
+  match a.ready with
+  | tid :: rest =>
+    let a := { a with ready := rest }
+    match a.tasks.find? (fun t => t.id == tid) with
+    | none => pure (some a)
+    | some t =>
+      if t.finished then pure (some a)
+      else do
+        let (t', a', res) ← pollTask U P t a
+        let a' := { a' with tasks := a'.tasks.map (fun x => if x.id == tid then t' else x) }
+        match res with
+        | some r => runCallback U P r
+        | none => pure ()
+        pure (some a')
+  | [] =>
+    if a.tasks.all (·.finished) then pure none
+    else do
+      -- quiescent: `next()` is Pending, the executor takes its turn
+      let a' ← executorTurn a
+      pure (some a')
 
 /-- `Encoder::encode` under the manual executor -/
 def encodeAsync (U : Universe) (P : Problem) (solvables : List SoR) (fuel : Nat) : M (List Nat) := do
@@ -240,45 +290,9 @@ def encodeAsync (U : Universe) (P : Problem) (solvables : List SoR) (fuel : Nat)
   let rec loop : Nat → AS → M Unit
     | 0, _ => throw .outOfFuel
     | fuel + 1, a => do
-      let a ← adoptPushed U a
-      match a.ready with
-      | tid :: rest =>
-        let a := { a with ready := rest }
-        match a.tasks.find? (fun t => t.id == tid) with
-        | none => loop fuel a
-        | some t =>
-          if t.finished then loop fuel a
-          else do
-            let (t', a', res) ← pollTask U P t a
-            let a' := { a' with tasks := a'.tasks.map (fun x => if x.id == tid then t' else x) }
-            match res with
-            | some r => runCallback U P r
-            | none => pure ()
-            loop fuel a'
-      | [] =>
-        if a.tasks.all (·.finished) then pure ()
-        else do
-          -- quiescent: the executor records what is outstanding and completes the request the schedule names
-          -- (`<label>` = the oldest outstanding request with that label, `<label> <k>` = the k-th oldest)
-          let labels := (a.gates.map (·.1) ++ a.fgates.map (·.1)).foldl (fun acc l => insertSorted l acc) []
-          modify fun s => { s with aevents := ("pending" ++ labels.foldl (fun acc l => acc ++ " " ++ l) "") :: s.aevents }
-          let s ← get
-          match s.sched with
-          | [] => throw (.panic "DEADLOCK or schedule exhausted")
-          | entry :: ls =>
-            let (l, k) : String × Nat := match entry.splitOn " " with
-              | [l, k] => (l, k.toNat?.getD 1)
-              | _ => (entry, 1)
-            match a.gates.lookup l with
-            | some tid =>
-              set { s with sched := ls, aevents := s!"complete {entry}" :: s.aevents }
-              loop fuel (enqueue { a with gates := a.gates.filter (fun g => g.1 != l), opened := l :: a.opened } tid)
-            | none =>
-              match (a.fgates.filter (fun g => g.1 == l))[k - 1]? with
-              | some (_, tid, gid) =>
-                set { s with sched := ls, aevents := s!"complete {entry}" :: s.aevents }
-                loop fuel (enqueue { a with fgates := a.fgates.filter (fun g => g.2.2 != gid), fopened := gid :: a.fopened } tid)
-              | none => throw (.panic s!"schedule names {entry}, which is not outstanding")
+      match ← asyncStep U P a with
+      | none => pure ()
+      | some a' => loop fuel a'
   loop fuel {}
   let s ← get
   pure s.conflicting
